@@ -85,7 +85,7 @@ pub fn run(t: &[String]) -> String {
                     total += g.len();
                     let errs = mgr.shutdown_all().await;
                     if !errs.is_empty() { return false; }
-                    for _ in 0..500 {
+                    for _ in 0..3000 {
                         if wal_lines(&wal, n).iter().map(|v| v.len()).sum::<usize>() >= total { break; }
                         tokio::time::sleep(std::time::Duration::from_millis(10)).await;
                     }
